@@ -26,6 +26,7 @@ TESTS = [
     (r"renormalizer/utils/rk\.py|renormalizer/utils/configs\.py", ["renormalizer/utils/tests", "renormalizer/mps/tests/test_mp.py"]),
     (r"renormalizer/utils/", ["renormalizer/utils/tests"]),
     (r"renormalizer/lib/krylov", ["renormalizer/lib/tests/test_krylov.py"]),
+    (r"renormalizer/tn/", ["renormalizer/tn/tests/test_tn.py", "renormalizer/tn/tests/test_evolve.py"]),
 ]
 # tests that fail on the pinned tree already (baseline always_fail)
 DESELECT = ["--deselect", "renormalizer/model/op.py::renormalizer.model.op.Op.split_elementary"] + \
